@@ -54,7 +54,7 @@ func runC17(c *an.Ctx) {
 		return target{f, short + ".(*" + typ + ")." + m, allowed}
 	}
 	targets := []target{
-		mk("store", "batch", "Append", nil),
+		mk("store", "batch", "Append", map[string]string{"store.(*Store).DeleteRange": "a deletion whose write batch did not commit puts back the headers it had removed from the pending batch itself; obligation C17.a pending-append-outside-loop-only-restores confines such a call to the failed-commit branch of a deferred batch cleanup (finding F26)"}),
 		mk("store", "batch", "Reset", nil),
 		mk("store", "Store", "flush", nil),
 		mk("store", "Store", "ensureInit", nil),
@@ -95,6 +95,8 @@ func runC17(c *an.Ctx) {
 			c.Fail("C17.a", "writer-root:"+tg.name, "every mutator of the write path has a root", tg.fn, nil, "no root reaches it (dead code or unresolved call)", nil)
 		}
 	}
+
+	checkPendingAppendOutsideLoopOnlyRestores(c, flushLoop)
 
 	// --- C17.b writers of the published height
 	setH := p.Method("store", "heightSub", "SetHeight")
@@ -301,14 +303,18 @@ func runC17(c *an.Ctx) {
 			// starts at head+1, so a conditional advance makes the final head depend on the schedule
 			for _, mv := range []*ssa.Function{adv, p.Method("store", "Store", "recedeTail")} {
 				mcs := callsTo(closure, mv)
-				okU := len(mcs) == 1
+				// one of the calls is the append step's: unconditional. Further calls (the re-evaluation
+				// after the pointers were re-initialised before a flush) can only move the pointers over
+				// what is contiguous and are not this clause's concern.
+				okU := false
 				for _, mc := range mcs {
 					// unconditional: it follows the append into the pending batch on every path, and no
 					// guard about the appended headers stands in front of it (a loop that merely walks
 					// them may: its exit condition is the only fact allowed)
+					okOne := true
 					for _, ac := range callsTo(closure, app) {
 						f, _ := (an.Flow{Fn: closure}).MustFollow(ac, func(in ssa.Instruction) bool { return in == ssa.Instruction(mc) }, nil)
-						okU = okU && f
+						okOne = okOne && f
 					}
 					for _, f := range cf.AtRefined(mc.Block()) {
 						walkExit := false
@@ -317,14 +323,15 @@ func runC17(c *an.Ctx) {
 								walkExit = true
 							}
 						}
-						okU = okU && walkExit
+						okOne = okOne && walkExit
 					}
+					okU = okU || okOne
 				}
 				name := "?"
 				if mv != nil {
 					name = an.FuncName(mv)
 				}
-				c.Check(okU, "C17.e", "pointer-move-unconditional:"+name, "every append round calls advanceHead and recedeTail exactly once and unconditionally (the result must not depend on which writer's range arrives last)", closure, nil, "", nil)
+				c.Check(okU, "C17.e", "pointer-move-unconditional:"+name, "every append round calls advanceHead and recedeTail unconditionally (the result must not depend on which writer's range arrives last)", closure, nil, "", nil)
 			}
 			for _, rc := range callsTo(closure, p.Method("store", "batch", "Reset")) {
 				okR := false
